@@ -481,8 +481,10 @@ impl<'a> Unquote<'a> {
             if str_ref.find('\\').is_some() {
                 Cow::from(self.to_string())
             } else {
-                // String is quoted but has no escapes.
-                Cow::from(&str_ref[1..str_ref.len() - 1])
+                // String is quoted but has no escapes: everything up to the
+                // closing quote (or the end, if it is missing).
+                let inner = &str_ref[1..];
+                Cow::from(inner.find('"').map_or(inner, |end| &inner[..end]))
             }
         } else {
             Cow::from(str_ref)
